@@ -155,6 +155,10 @@ func main() {
 			skipped[k] = "other package"
 			continue
 		}
+		if f.Prefix > 0 { // the first statements of a function cannot be run on their own
+			skipped[k] = "fragment"
+			continue
+		}
 		g.b.Reset()
 		g.pf("func gfCase%d(w *bufio.Writer) {\n", k)
 		var args []string // actual arguments of the Go call
@@ -288,6 +292,10 @@ func main() {
 		if why, skip := skipped[k]; skip {
 			if f.Pkg != p {
 				fmt.Printf("validate: %-12s %-28s callee in another package: validated through its callers only\n", rel, f.Name)
+				continue
+			}
+			if f.Prefix > 0 {
+				fmt.Printf("validate: %-12s %-28s fragment of a function body: cannot be run on its own, not validated\n", rel, f.Name)
 				continue
 			}
 			fmt.Printf("validate: %s %s: SKIPPED (%s)\n", rel, f.Name, why)
